@@ -7,7 +7,7 @@ import SqiModel.Quat
      q.add|q.sub A B           -> element          q.mul p A B -> element
      q.conj A | q.normalize A  -> element          q.eqden A B -> element element
      q.norm p A | q.trace A    -> num den          q.rmat p A  -> matrix
-     m.mul A B -> matrix   m.inv A -> det adj(16)  m.eval A v -> vec   m.qf A v -> int   m.ishnf A -> 0/1
+     m.mul A B -> matrix   m.inv A -> det adj(16)  m.eval A v -> vec   m.qf A v -> int   m.ishnf A -> 0/1   m.gcd A -> int (ibz_mat_4x4_gcd)
      h.core G(32) -> matrix      h.mod A m -> matrix
      l.add L1 L2 | l.inter L1 L2 | l.mul p L1 L2 | l.hnf L | l.reduce L | l.dual L  -> lattice
      l.equal L1 L2 -> 0/1    l.contains L x -> flag c0 c1 c2 c3    l.index Lsub Lover -> int -/
@@ -71,6 +71,7 @@ def handleInts : String → List Int → Option String
   | "m.eval", l => do let (a, l) ← matOf l; let (v, _) ← vecOf l; pure (showVec (a.eval v))
   | "m.qf", l => do let (a, l) ← matOf l; let (v, _) ← vecOf l; pure (intToHex (a.qfEval v))
   | "m.ishnf", l => do let (a, _) ← matOf l; pure (b01 a.isHnf)
+  | "m.gcd", l => do let (a, _) ← matOf l; pure (intToHex a.gcd)
   | "h.core", l => do let g ← cols8 l; pure (showMat (hnfCore g))
   | "h.mod", l => do
       let (a, l) ← matOf l
